@@ -409,6 +409,53 @@ pub fn run(c: &mut Ctx) {
         Ok(m) => m,
         Err(e) => return c.inconclusive(&e),
     };
+    // a hostile merchant publishes crafted parameters: if the customer's decoder lets them in, the
+    // customer's messages under them are judged like all others
+    c.case("hostile-parameters", |c| {
+        use zkabacus_crypto::{merchant, RangeConstraintParameters};
+        let t = match trace(m.cfg.range_constraint_parameters()) {
+            Ok(t) => t,
+            Err(e) => return c.inconclusive(&e),
+        };
+        let g1id = crate::wire::g1_identity_bytes().to_vec();
+        let g2id = crate::wire::g2_identity_bytes().to_vec();
+        let crafted: Vec<(&str, &str, Vec<u8>)> = vec![
+            ("range-key-g2-identity", "public_key/g2", g2id.clone()),
+            ("range-key-x2-identity", "public_key/x2", g2id.clone()),
+            ("range-key-y2-identity", "public_key/y2s/[0]", g2id.clone()),
+            ("range-key-g1-identity", "public_key/g1", g1id.clone()),
+            ("range-key-y1-identity", "public_key/y1s/[0]", g1id.clone()),
+            ("digit-signature-sigma1-identity", "digit_signatures/[1]/sigma1", g1id.clone()),
+        ];
+        for (what, fpath, bytes) in crafted {
+            c.eval();
+            c.distinct(&format!("hostile-parameters/{}", what));
+            let mut tr = t.clone();
+            if let Err(e) = tr.fset(fpath, &bytes) {
+                c.inconclusive(&e);
+                continue;
+            }
+            match dec::<RangeConstraintParameters>(&tr.bytes) {
+                Err(_) => c.count("hostile_parameter_sets_refused_at_decode", 1),
+                Ok(range) => {
+                    c.count("hostile_parameter_sets_decoded", 1);
+                    let cfg = (|| -> Result<merchant::Config, String> {
+                        Ok(merchant::Config::from_parts(dec(&enc(m.cfg.signing_keypair()))?, dec(&enc(m.cfg.revocation_commitment_parameters()))?, range))
+                    })();
+                    match cfg.and_then(|cfg| fixtures::from_config(&format!("hostile-{}", what), cfg)) {
+                        Ok(f) => {
+                            let f: &'static Merchant = Box::leak(Box::new(f));
+                            let name = format!("hostile-parameters/{}", what);
+                            if let Err(p) = guard(|| run_group(c, f, &name, 2, 24)) {
+                                c.count(&format!("hostile_parameters_run_panicked[{}]", repo_rel(&p.location)), 1);
+                            }
+                        }
+                        Err(e) => c.inconclusive(&e),
+                    }
+                }
+            }
+        }
+    });
     let groups = c.tier.pick(32usize, 400);
     let rounds = c.tier.pick(30usize, 90);
     for g in 0..groups {
